@@ -333,6 +333,65 @@ def runChunks (cfg : Cfg α) (st : State α) (fr : Nat → Frame α) : List Nat 
     let r := call cfg st none fr m
     r :: runChunks cfg r.st (fun j => fr (m + j)) ms
 
+/-! ## argument resolution of `forward` (glue): per-call vs constructor covariances, partial `init_state` dicts -/
+
+/-- a per-call `gyro_cov` / `acc_cov` argument of one item: not given, one row `(B,1,3)` broadcast over the frames,
+or one row per frame `(B,F,3)` -/
+inductive CovArg (α : Type) where
+  | none : CovArg α
+  | row (v : Vec3 α) : CovArg α
+  | rows (f : Nat → Vec3 α) : CovArg α
+
+/-- `if gyro_cov is None: gyro_cov = self.gyro_cov.repeat([B,1,1])`, then `diag_embed` broadcast along the frames -/
+def resolveCov (dflt : Vec3 α) : CovArg α → Nat → Vec3 α
+  | .none, _ => dflt
+  | .row v, _ => v
+  | .rows f, j => f j
+
+/-- the `init_state` dict as the caller built it: every key may be absent; `cov` / `Rij` may be present with value `None` -/
+structure InitDict (α : Type) where
+  pos : Option (Vec3 α)
+  rot : Option (Quat α)
+  vel : Option (Vec3 α)
+  cov : Option (Option (M9 α))
+  Rij : Option (Option (Quat α))
+
+/-- `'cov' not in init_state or init_state['cov'] is None` → no covariance given -/
+def joinCov : Option (Option (M9 α)) → Option (M9 α)
+  | some (some c) => some c
+  | _ => none
+
+/-- `init_state['pos'|'rot'|'vel']` must exist (KeyError otherwise); `'cov' not in init_state or init_state['cov'] is None`
+→ the carried covariance; `'Rij' in init_state` → its value (possibly `None`), else the carried `Rij` -/
+def resolveInit : Option (InitDict α) → Except String (Option (Init α))
+  | none => .ok none
+  | some d =>
+    match d.pos, d.rot, d.vel with
+    | some p, some r, some v =>
+      .ok (some ⟨p, r, v, joinCov d.cov, d.Rij⟩)
+    | _, _, _ => .error "KeyError"
+
+/-- the sensor part of a frame (what the caller passes per frame) -/
+structure RawFrame (α : Type) where
+  dt : α
+  gyro : Vec3 α
+  acc : Vec3 α
+  rot : Option (Quat α)
+
+/-- frames as `forward` sees them after resolving the covariance arguments against the module's defaults -/
+def resolveFrames (modG modA : Vec3 α) (gc ac : CovArg α) (raw : Nat → RawFrame α) : Nat → Frame α :=
+  fun j => ⟨(raw j).dt, (raw j).gyro, (raw j).acc, (raw j).rot, resolveCov modG gc j, resolveCov modA ac j⟩
+
+/-- `forward(dt, gyro, acc, rot, gyro_cov, acc_cov, init_state)` with its argument resolution; the carried state afterwards
+(unchanged when the call raises) -/
+def forwardArgs (cfg : Cfg α) (modG modA : Vec3 α) (st : State α) (init : Option (InitDict α)) (gc ac : CovArg α)
+    (raw : Nat → RawFrame α) (F : Nat) : Except String (Result α) × State α :=
+  match resolveInit init with
+  | .error e => (.error e, st)
+  | .ok i =>
+    let r := call cfg st i (resolveFrames modG modA gc ac raw) F
+    (.ok r, r.st)
+
 /-! ## calls that may raise: `forward` commits the carried buffers only after every stage succeeded -/
 
 /-- one request to `forward`; `ok = false` stands for arguments on which torch raises somewhere inside the call
